@@ -8,7 +8,20 @@ import (
 	"strings"
 
 	"verifharness/lib"
+	"verifharness/schgen"
 )
+
+// the same observation on freshly generated code (op "valg"): schemas within the generator's feature
+// set, one generated package per run (harness/schgen)
+func runGenVals(out *lib.Out, run string, schemas []*lib.SchTy, gc []*schgen.Case, rng *lib.Rng) {
+	if len(gc) == 0 {
+		return
+	}
+	schgen.Run(run, schemas, gc, rng, false)
+	for _, c := range gc {
+		out.Case(c.ID, "valg", schemas[c.SI].Text(), "t", "direct", c.V.Text(), c.Obs)
+	}
+}
 
 func runVal(out *lib.Out, id string, t *lib.SchTy, v *lib.Val) {
 	typ, _, err := lib.SchLoad(t)
@@ -29,8 +42,24 @@ func main() {
 	out := lib.OpenOut(fl.Out)
 	defer out.Close()
 	if fl.Replay != "" {
+		var gs []*lib.SchTy
+		var gc []*schgen.Case
 		for i, line := range lib.ReadLines(fl.Replay) {
 			f := strings.Split(line, "\t")
+			if len(f) >= 6 && f[1] == "valg" {
+				t, err := lib.SchParse(f[2])
+				if err != nil {
+					panic(err)
+				}
+				lib.SchAssignNames(t, fmt.Sprintf("Rg%d", i))
+				v, err := lib.ParseVal(f[5])
+				if err != nil {
+					panic(err)
+				}
+				gs = append(gs, t)
+				gc = append(gc, &schgen.Case{ID: f[0], SI: len(gs) - 1, Op: "val", Level: 't', Route: "direct", V: v})
+				continue
+			}
 			if len(f) < 6 || f[1] != "val" {
 				continue
 			}
@@ -45,6 +74,7 @@ func main() {
 			}
 			runVal(out, f[0], t, v)
 		}
+		runGenVals(out, "c08-replay", gs, gc, lib.NewRng(fl.Seed))
 		return
 	}
 	n := fl.N
@@ -73,4 +103,30 @@ func main() {
 			runVal(out, fmt.Sprintf("g%d.%d", i, j), t, v)
 		}
 	}
+	// generated code: the conforming corpus values in the generator's feature set + dedicated schemas
+	var gs []*lib.SchTy
+	var gc []*schgen.Case
+	for i, c := range lib.SchCorpus() {
+		if c.Level != 't' || !c.Conf || !c.T.GenSupported() {
+			continue
+		}
+		lib.SchAssignNames(c.T, fmt.Sprintf("K%d", i))
+		lib.SchPatchMemberKeys(c.T, 't', c.V)
+		gs = append(gs, c.T)
+		gc = append(gc, &schgen.Case{ID: fmt.Sprintf("c%d.gen", i), SI: len(gs) - 1, Op: "val", Level: 't', Route: "direct", V: c.V})
+	}
+	ng := 14
+	if fl.Tier == "thorough" {
+		ng = 240
+	}
+	gcfg := &lib.SchGenCfg{MaxDepth: 4, ForGen: true}
+	for i := 0; i < ng; i++ {
+		t := rng.SchGen(gcfg)
+		lib.SchAssignNames(t, fmt.Sprintf("H%d", i))
+		gs = append(gs, t)
+		for j := 0; j < perSchema; j++ {
+			gc = append(gc, &schgen.Case{ID: fmt.Sprintf("h%d.%d.gen", i, j), SI: len(gs) - 1, Op: "val", Level: 't', Route: "direct", V: rng.SchValue(t, 't', nil)})
+		}
+	}
+	runGenVals(out, fmt.Sprintf("c08-%s-s%d", fl.Tier, fl.Seed), gs, gc, rng)
 }
